@@ -109,6 +109,12 @@ func families(run *ev.Run) []family {
 				}
 			}
 		}
+		// confirmed immature, pool copy claims maturity (see outAttr.Twin)
+		tw := outAttr{Mature: false, Pres: presBoth, Amount: amt, Twin: true}
+		sTypesAll = append(sTypesAll, tw)
+		if amt <= 2 || run.Thorough() {
+			sTypesCore = append(sTypesCore, tw)
+		}
 	}
 	// the class of the set plus the three classes that differ from it in exactly one coordinate
 	sClasses := [][3]int{{0, 0, 0}, {1, 0, 0}, {0, 1, 0}, {0, 0, 1}}
@@ -254,7 +260,13 @@ func (fx *fixture) dbDelete(i int) { fx.db.Delete(account.StandardUTXOKey(fx.ids
 func (fx *fixture) dbHas(i int) bool {
 	return fx.db.Get(account.StandardUTXOKey(fx.ids[i])) != nil
 }
-func (fx *fixture) addUnconfirmed(i int) { fx.k.AddUnconfirmed([]*account.UTXO{fx.record(i)}) }
+func (fx *fixture) addUnconfirmed(i int) {
+	u := fx.record(i)
+	if fx.set[i].Twin {
+		u.ValidHeight = chainHeight // the pool copy was built before the output had a block height
+	}
+	fx.k.AddUnconfirmed([]*account.UTXO{u})
+}
 func (fx *fixture) removeUnconfirmed(i int) {
 	h := fx.ids[i]
 	fx.k.RemoveUnconfirmed([]*bc.Hash{&h})
